@@ -169,6 +169,13 @@ fn build_chain(c: &Case, coin: &'static Coin) -> (ChainBuilder, Option<u64>) {
             cb.push(vec![]);
         }
     }
+    // the block's own transaction count stored in a wider CompactSize form (blocks 1.. in turn 0xfd / 0xfe / 0xff forms)
+    if let Some(w) = c.label.strip_prefix("wide-txcount w") {
+        let w: u8 = w.split(' ').next().and_then(|x| x.parse().ok()).unwrap_or(1);
+        for (i, b) in cb.blocks.iter_mut().enumerate().skip(1) {
+            b.txcount_wide = if w == 0 { 1 + (i as u8 % 3) } else { w };
+        }
+    }
     let start = if c.verify && genesis(coin).is_none() { Some(1) } else { None };
     (cb, start)
 }
@@ -309,6 +316,15 @@ pub fn run() -> Report {
         p.value = val;
         cases.push(Case { coin: "bitcoin", verify: true, txs: vec![p], hdr: None, n_blocks: 3, label: format!("value={:#x}", val) });
     }
+    for coin in ["bitcoin", "litecoin", "dogecoin"] {
+        for w in 0..=3u8 {
+            for verify in [false, true] {
+                for n_tx in [0usize, 1, 3] {
+                    cases.push(Case { coin, verify, txs: vec![TxP::base(); n_tx], hdr: None, n_blocks: 4, label: format!("wide-txcount w{} txs={}", w, n_tx + 1) });
+                }
+            }
+        }
+    }
     // counts and lengths stored in a wider CompactSize form than they need (fd / fe / ff prefix), all four kinds at once and
     // one kind at a time: the fields decode to the same values, txid and merkle root are those of the bytes as stored
     for coin in ["bitcoin", "litecoin"] {
@@ -347,9 +363,9 @@ pub fn run() -> Report {
             cases.push(Case { coin, verify, txs: vec![], hdr: None, n_blocks: 4, label: "ground-patterns".into() });
         }
     }
-    rep.rule = "product of the core tx-shape alphabet (segwit x n_in x n_out x |scriptSig| x |scriptPubKey| x witness-stack shape) as 2nd tx of the middle block, ordered shape pairs in one block, one-dimension CompactSize boundary sweeps (0xfc,0xfd,0xfe,0xffff,0x10000) for 7 count/length dimensions, u32/u64 field value sweeps; counts and lengths stored in wider CompactSize forms than needed (3 widths x {all, input count, output count, scriptSig length, scriptPubKey length} x legacy/segwit); two transactions shifted byte by byte (220 positions) across the 32 KiB mark of their block; a chain of ground byte patterns (txids / block hashes beginning or ending with 00, 0000, ff, the bytes of ; \" , and line feed, previous-output hashes of all 00 / ff, values 0, 1, equal, 2^63, 2^64-1, top-bit-set sequence numbers and block time); x coins x --verify; non-trivial = distinct case whose run wrote at least 2 block rows".into();
+    rep.rule = "product of the core tx-shape alphabet (segwit x n_in x n_out x |scriptSig| x |scriptPubKey| x witness-stack shape) as 2nd tx of the middle block, ordered shape pairs in one block, one-dimension CompactSize boundary sweeps (0xfc,0xfd,0xfe,0xffff,0x10000) for 7 count/length dimensions, u32/u64 field value sweeps; counts and lengths stored in wider CompactSize forms than needed (3 widths x {all, input count, output count, scriptSig length, scriptPubKey length} x legacy/segwit; the block's transaction count in each of the 3 wider forms, 3 coins); two transactions shifted byte by byte (220 positions) across the 32 KiB mark of their block; a chain of ground byte patterns (txids / block hashes beginning or ending with 00, 0000, ff, the bytes of ; \" , and line feed, previous-output hashes of all 00 / ff, values 0, 1, equal, 2^63, 2^64-1, top-bit-set sequence numbers and block time); x coins x --verify; non-trivial = distinct case whose run wrote at least 2 block rows".into();
     rep.bound = json!({"cases": cases.len(), "product_coins": prod_coins, "blocks": "2..4", "max_count": "0x10000", "max_item_bytes": 2621440});
-    rep.not_covered = vec!["counts >= 2^32 (9-byte CompactSize)".into(), "non-canonical CompactSize encodings (consensus-invalid, excluded by design)".into(), "tx/block versions >= 2^31".into()];
+    rep.not_covered = vec!["counts >= 2^32 (9-byte CompactSize)".into(), "tx/block versions >= 2^31".into()];
     let root = refmodel::world::scratch_root();
     let parts = par_fold(
         &cases,
